@@ -203,8 +203,17 @@ func goBucketsOK(count, threshold int) bool {
 }
 
 func runDownsampleCase(s *kit.Summary, st, bk *kit.Stream, d dsCase, sample bool) {
+	runDownsampleCaseM(s, st, bk, d, sample, true)
+}
+
+// runDownsampleCaseM: real code + oracle always; the model is consulted when withModel is set.
+func runDownsampleCaseM(s *kit.Summary, st, bk *kit.Stream, d dsCase, sample, withModel bool) {
 	line, out, err, panicked := implDownsample(d)
-	st.Add(fmt.Sprintf("c17.downsample %d %d %s", d.Count, d.Threshold, bitsPairs(d.Points)), line)
+	if withModel {
+		st.Add(fmt.Sprintf("c17.downsample %d %d %s", d.Count, d.Threshold, bitsPairs(d.Points)), line)
+	} else {
+		s.Count("downsample:oracle-only")
+	}
 	oracleDownsample(s, d, out, err, panicked)
 	branch := "sampled"
 	switch {
@@ -220,7 +229,9 @@ func runDownsampleCase(s *kit.Summary, st, bk *kit.Stream, d dsCase, sample bool
 	s.Case(fmt.Sprintf("ds:%d:%d:%s:%x", d.Count, d.Threshold, d.Kind, hashPairs(d.Points)), branch == "sampled")
 	if branch == "sampled" {
 		ok := goBucketsOK(d.Count, d.Threshold)
-		bk.Add(fmt.Sprintf("c17.bucketsok %d %d", d.Count, d.Threshold), "ok "+kit.B(ok))
+		if withModel {
+			bk.Add(fmt.Sprintf("c17.bucketsok %d %d", d.Count, d.Threshold), "ok "+kit.B(ok))
+		}
 		s.Count("bucketsok:" + kit.B(ok))
 		if !ok {
 			s.Extra["bucketsok_false"] = fmt.Sprintf("count=%d threshold=%d", d.Count, d.Threshold)
@@ -283,7 +294,10 @@ func downsampleStreams(c *run.Ctx, s *kit.Summary, r *kit.Rng) {
 		for threshold := 0; threshold <= count+1; threshold++ {
 			kind := valueKinds[r.Pick(len(valueKinds))]
 			d := dsCase{"downsample", count, threshold, genPoints(r, count, kind), kind}
-			runDownsampleCase(s, st, bk, d, count == 40 && threshold == 7)
+			// every pair goes through the real code and the oracle; beyond count 64 the model is
+			// consulted for a sample of the pairs (the driver is the slow side)
+			withModel := count <= 64 || r.Chance(0.15)
+			runDownsampleCaseM(s, st, bk, d, count == 40 && threshold == 7, withModel)
 			flush(c, s, st, false)
 		}
 	}
@@ -293,7 +307,7 @@ func downsampleStreams(c *run.Ctx, s *kit.Summary, r *kit.Rng) {
 	if c.Tier == "thorough" {
 		maxBig = 6000
 	}
-	for i := 0; i < c.N(250, 3000); i++ {
+	for i := 0; i < c.N(250, 1500); i++ {
 		count := int(r.Range(int64(maxCount)+1, int64(maxBig)))
 		var threshold int
 		switch r.Pick(8) {
@@ -335,12 +349,20 @@ func downsampleStreams(c *run.Ctx, s *kit.Summary, r *kit.Rng) {
 			count = int(r.Range(5, 20000))
 			threshold = count - 1 - r.Pick(min(count-4, 50))
 		}
+		if r.Chance(0.15) { // beyond the 2^50 bound of theorem buckets_ok
+			count = int(r.Range(1<<50+1, 1<<62))
+			threshold = int(r.Range(3, 1500))
+		}
 		if threshold < 3 || threshold >= count {
 			continue
 		}
 		ok := goBucketsOK(count, threshold)
 		bk.Add(fmt.Sprintf("c17.bucketsok %d %d", count, threshold), "ok "+kit.B(ok))
-		s.Count("bucketsok_only:" + kit.B(ok))
+		if count > 1<<50 {
+			s.Count("bucketsok_only:beyond_2^50:" + kit.B(ok))
+		} else {
+			s.Count("bucketsok_only:" + kit.B(ok))
+		}
 		if !ok {
 			s.Extra["bucketsok_false"] = fmt.Sprintf("count=%d threshold=%d", count, threshold)
 		}
@@ -692,13 +714,19 @@ type genOpts struct {
 // from 0 to minutes, arbitrary OK/ERROR mix; returned in sequence order, attack after attack.
 func genResults(r *kit.Rng, g genOpts) []res {
 	var total int
-	switch r.Pick(10) {
-	case 0, 1, 2, 3, 4, 5:
+	switch r.Pick(20) {
+	case 0, 1, 2, 3, 4, 5, 6, 7, 8, 9, 10, 11:
 		total = 1 + r.Pick(min(30, g.maxResults))
-	case 6, 7, 8:
+	case 12, 13, 14, 15, 16, 17, 18:
 		total = 1 + r.Pick(min(300, g.maxResults))
-	default:
-		total = 1 + r.Pick(g.maxResults)
+	default: // log-uniform up to the maximum
+		total = int(math.Exp(r.Float64() * math.Log(float64(g.maxResults))))
+		if r.Chance(0.1) {
+			total = g.maxResults
+		}
+		if total < 1 {
+			total = 1
+		}
 	}
 	na := 1 + r.Pick(4)
 	if na > total {
@@ -964,7 +992,7 @@ func plotStreams(c *run.Ctx, s *kit.Summary, r *kit.Rng) {
 	flush(c, s, st, false)
 
 	// (2) generated sets in several random arrival orders
-	for i := 0; i < c.N(500, 6000); i++ {
+	for i := 0; i < c.N(500, 2500); i++ {
 		base := genResults(r, g)
 		th := pickThreshold(r, base)
 		ref := ""
